@@ -5,7 +5,18 @@ import json, sys
 ALL = ["C%02d" % i for i in range(1, 21)]
 
 WRAP_NOTE = "Shaped runs are synthetic (generator asserts the shaper output contract); break opportunities come from the segmenter (C06). Negative letter spacing is checked for conservation only (measure not monotone)."
+SHAPE_NOTE = "The alphabet is a heuristic quotient (font-derived lookup-coverage classes + per-script category packs + universal troublemakers): the claim is 'all strings over this alphabet up to the bound', not 'all strings'. Secondary axes are crossed with the string axis, not with each other. Worker processes run under RLIMIT_AS with a per-case journal and watchdog."
 CHECKS = {
+ "C01": dict(
+   level="exploration",
+   text="Every corpus face (752) x every string up to the tier's length over its font-derived alphabet and the script packs it covers x {6 directions, every sub-run with context, out-of-contract bounds, 8 script tags, sizes, features, language} through shaping.Shape and x {7 flag values x 3 cluster levels x 2 directions} through harfbuzz.Buffer.Shape; totality (panic, hang, memory attributed to the journalled case), output budget, reported range, cluster membership/monotonicity/count laws.",
+   note=SHAPE_NOTE, technique="bounded exhaustive enumeration of inputs and configurations against totality and accounting laws (E1)",
+   design="1/C01", engine="E1 enum"),
+ "C12": dict(
+   level="exploration",
+   text="The C01 font x string enumeration (whole text, 6 directions, 6 sizes from 1 to 4096 incl. fractional) through shaping.Shape; every Output checked for advance sums, zero cross-axis advances, glyph bounds enclosing baseline and ink, line bounds vs font extents at the advance scale, sideways == clockwise rotation of the horizontal shaping, and exact word/letter spacing deltas for positive/negative values x run-position flags, AddSpacing == per-run calls.",
+   note=SHAPE_NOTE + " Vertical line bounds are not recomputed independently.", technique="bounded exhaustive enumeration of inputs and configurations against geometric identities (E1)",
+   design="1/C12", engine="E1 enum"),
  "C13": dict(
    level="model_checking",
    text="Explicit exploration of every operation history up to depth 4 (thorough 5; LineWrapper 3/4) on 7 real objects: HarfbuzzShaper (several faces incl. two faces of one variable Font, sizes, features, directions, cache sizes, SetVariations on a cached face), harfbuzz.Buffer (flags, cluster levels, ranged features, sub-ranges), font.Face on a CFF2-variable, a gvar/HVAR and a bitmap font (SetVariations/SetCoords/SetPpem interleaved with queries), shaping.Segmenter, LineWrapper (WrapParagraph / Prepare / WrapNextLine). The last call of every history must equal the same call on freshly constructed objects; earlier results are re-compared with their copies until the documented invalidation point.",
